@@ -334,6 +334,10 @@ func c17cExec(p c17cPlan, st *simrt.Stats, log *simrt.Log) *simrt.Violation {
 }
 
 // C17RacePlan generates the i-th concurrent plan of a seed (used by the race-detector stage).
+func (c17) RaceFrames() []string { return []string{"/src/service."} }
+
+func (c17) RacePlan(seed uint64, i int) json.RawMessage { return C17RacePlan(seed, i) }
+
 func C17RacePlan(seed uint64, i int) json.RawMessage {
 	r := simrt.NewRand(runner.PlanSeed(seed, "C17-race", i))
 	p := c17cGen(r, runner.PlanSeed(seed, "C17-race", i))
